@@ -90,7 +90,7 @@ class Stats:
             'slice_grants_crossing_the_physical_end': self.seam, 'owned_item_histories': self.owned_hist,
         }
 
-def compare_shard(suite, shard, outs, stats, divs, maxdiv=200):
+def compare_shard(suite, shard, outs, stats, divs, maxdiv=200, collect=None):
     hs = parse_hist(shard)
     if outs['model'][0] != 0 or outs['spec'][0] != 0:
         raise RuntimeError('model driver failed: ' + outs['model'][2] + outs['spec'][2])
@@ -113,8 +113,11 @@ def compare_shard(suite, shard, outs, stats, divs, maxdiv=200):
         if len(stats.samples) < 3: stats.samples.append({'cfg': cfg, 'ops': ops[:12]})
         broken = False
         prev = ''
+        got = []
+        if collect is not None: collect.append((header, cfg, ops, got))
         for idx in range(-1, len(ops)):
             m, mi = nxt(ml, mi); i, ii = nxt(il, ii); s, si = nxt(sl, si)
+            got.append(i)
             if idx >= 0:
                 stats.steps += 1
                 opn = ops[idx].split()[0]
@@ -137,10 +140,11 @@ def compare_shard(suite, shard, outs, stats, divs, maxdiv=200):
                 if len(divs) < maxdiv: divs.append(Div(suite, header, cfg, ops, idx, 'spec', s[2:], CA_RE.sub('', i)))
         # live line: model and impl only
         m, mi = nxt(ml, mi); i, ii = nxt(il, ii)
+        got.append(i)
         if not broken and m != i and len(divs) < maxdiv:
             divs.append(Div(suite, header, cfg, ops, len(ops), 'tie', m, i))
 
-def run(ctx, seqrun, suites):
+def run(ctx, seqrun, suites, collect=None):
     """suites: list of (name, model-generator-args). Returns (stats, divergences)."""
     stats = Stats(); divs = []
     for name, genargs in suites:
@@ -152,7 +156,7 @@ def run(ctx, seqrun, suites):
         shards, n = split_histories(hist, common.NCPU, ctx.work, name)
         with ThreadPoolExecutor(max_workers=common.NCPU) as ex:
             for shard, outs in ex.map(run_one, [(seqrun, s) for s in shards]):
-                compare_shard(name, shard, outs, stats, divs)
+                compare_shard(name, shard, outs, stats, divs, collect=collect)
     return stats, divs
 
 def run_files(ctx, seqrun, name, files):
